@@ -172,6 +172,11 @@ cocls::async<void> st_root2(StWorld &w, int n, int ncanc, int interval_ticks, in
     for (int c = 0; c < ncanc; c++) co_await w.cf[c];
     if (interval_ticks) co_await w.ivf;
 }
+template <typename T> cocls::async<T> st_tail(cocls::scheduler &sch, long delay_ms, bool throws) {
+    co_await sch.sleep_for(ms(delay_ms));
+    if (throws) throw vs::TestError(4711);
+    if constexpr (std::is_void_v<T>) co_return; else co_return T(77);
+}
 void single_thread_mode() {
     dsim::config().stalls = dsim::flip();
     int n = 1 + dsim::choose(5);
@@ -193,6 +198,16 @@ void single_thread_mode() {
     // what the first start() did not wait for is either complete or still pending - never dropped: a second start() completes it
     sch.start(st_root2(w, n, ncanc, interval_ticks, nroot).start());
     for (int i = 0; i < n; i++) if (!dsim::cell_get(OUTCOME + i)) dsim::fail("C12.lost", "sleep %d never completed although start() returned", i);
+    // start() hands through what the awaited operation produced: its value, or the exception it ended with (after the sleep inside it)
+    int tail_kind = dsim::choose(4);
+    dsim::plan_note(" tail=%d", tail_kind);
+    clk::time_point t0 = clk::now();
+    try {
+        if (tail_kind == 1) { long r = sch.start(st_tail<long>(sch, 3, false).start()); if (r != 77) dsim::fail("C12.start_result", "start() returned %ld, the awaited coroutine returned 77", r); }
+        else if (tail_kind == 2) { sch.start(st_tail<void>(sch, 3, true).start()); dsim::fail("C12.start_result", "start() returned normally although the awaited coroutine ended with an exception"); }
+        else if (tail_kind == 3) { long r = sch.start(st_tail<long>(sch, 3, true).start()); dsim::fail("C12.start_result", "start() returned %ld although the awaited coroutine ended with an exception", r); }
+    } catch (const vs::TestError &e) { if (tail_kind < 2 || e.code != 4711) dsim::fail("C12.start_result", "start() threw TestError(%ld)", e.code); }
+    if (tail_kind && clk::now() < t0 + ms(3)) dsim::fail("C12.early", "start() returned before the sleep inside the awaited coroutine was due");
 }
 
 // ============================================================ (c) thread mode and thread-pool mode
@@ -258,8 +273,11 @@ void threaded_mode(bool pool_mode) {
     {
         std::unique_ptr<cocls::thread_pool> pool; std::thread thr;
         std::unique_ptr<cocls::scheduler> sch;
-        if (pool_mode) { pool = std::make_unique<cocls::thread_pool>(nworkers); sch = std::make_unique<cocls::scheduler>(*pool); }
-        else sch = std::make_unique<cocls::scheduler>(thr);
+        int how = dsim::choose(3);      // 0 constructor, 1 default-constructed + start(pool / thread), 2 default-constructed + start_thread() (thread mode)
+        dsim::plan_note(" start_flavour=%d", how);
+        if (pool_mode) { pool = std::make_unique<cocls::thread_pool>(nworkers); if (how == 0) sch = std::make_unique<cocls::scheduler>(*pool); else { sch = std::make_unique<cocls::scheduler>(); sch->start(*pool); } }
+        else if (how == 0) sch = std::make_unique<cocls::scheduler>(thr);
+        else { sch = std::make_unique<cocls::scheduler>(); if (how == 1) sch->start(thr); else sch->start_thread(); }
         clk::time_point base = clk::now();
         std::vector<std::thread> th;
         for (int i = 0; i < n; i++) th.emplace_back([&, i] {
@@ -286,7 +304,7 @@ void threaded_mode(bool pool_mode) {
         sch.reset();                                   // must return; pending sleeps end with await_canceled_exception
         dsim::cell_set(SEQ, 78);
         if (destroy_early) for (auto &t : th) t.join();
-        if (!pool_mode) thr.join();
+        if (!pool_mode && thr.joinable()) thr.join();
         pool.reset();
     }
     long by_cancel = 0;
